@@ -686,11 +686,9 @@ def resolve(model: RefDir, op):
         tn = _pick(model.types_with_ref(), r[0])
         if tn is None:
             return None
-        # (between a type and a type declared as its sub-class the
-        # statement is silent: to Python a quantity of the one is a
-        # quantity of the other)
-        others = [s for s in model.uorder if model.units[s]['type'] != tn
-                  and not model.related(model.units[s]['type'], tn)]
+        # (also between a type and a type declared as its sub-class: a
+        # type of its own, with a dimension of its own)
+        others = [s for s in model.uorder if model.units[s]['type'] != tn]
         o = _pick(others, r[1])
         if o is None:
             return None
